@@ -52,7 +52,8 @@ def ignore_private(elem):
     return False
 
 def ignore_pixel_data(elem):
-    return elem.tag == pydicom.tag.Tag(0x7fe0, 0x10)
+    return (elem.tag.group == 0x7fe0 and
+            elem.tag.elem in (0x8, 0x9, 0x10))
 
 def ignore_overlay_data(elem):
     return elem.tag.group & 0xff00 == 0x6000 and elem.tag.elem == 0x3000
